@@ -51,3 +51,45 @@ package security
 //@   site (github.com/go-jose/go-jose/v4/jwt.Claims).Validate requires[C02] verifiedClaims: arg0 == *dyn(#claimsStd, ptr(jwt.Claims)) && arg1.Issuer == "rdpgw"
 //@   site (*golang.org/x/oauth2.Config).TokenSource requires[C02] embeddedToken: arg2.AccessToken == dyn(#claimsExtra, ptr(customClaims)).AccessToken
 //@   nopanic[C10]
+
+// ---------------------------------------------------------------- token minting and verification
+
+//@ define stdClaims(x) = dyn(x, jwt.Claims)
+//@ define paaClaims(x) = dyn(x, customClaims)
+//@ define fiveMinutes() = 300000000000
+
+//@ func GeneratePAAToken
+//@   requires[C10] identity: hasId(ctx) && mapHas(ctxId(ctx).attributes, "clientIp") && typeIs(ctxId(ctx).attributes["clientIp"], string) && mapHas(ctxId(ctx).attributes, "accessToken") && typeIs(ctxId(ctx).attributes["accessToken"], string)
+//@   assigns #lastNow, #signerAlg, #signerKey, #signerObj, #ndTime, #ndResult, #bSigner, #bEncrypter, #bPrev, #bLast, #serialized
+//@   ensures[C02,C18] keyLength: result1 == nil ==> len(SigningKey) >= 32
+//@   ensures[C02] signed: result1 == nil ==> result0 == #serialized && #bSigner == #signerObj && #bEncrypter == nil && #signerAlg == "HS256" && #signerKey == SigningKey
+//@   ensures[C02] standard: result1 == nil ==> stdClaims(#bPrev).Issuer == "rdpgw" && stdClaims(#bPrev).Subject == username && stdClaims(#bPrev).Expiry == #ndResult && #ndTime == #lastNow.Add(fiveMinutes())
+//@   ensures[C04,C12] private: result1 == nil ==> paaClaims(#bLast).RemoteServer == server && box(paaClaims(#bLast).ClientIP) == ctxId(ctx).attributes["clientIp"] && box(paaClaims(#bLast).AccessToken) == ctxId(ctx).attributes["accessToken"]
+//@   ensures[C02] failed: result1 != nil ==> result0 == ""
+//@   nopanic[C10]
+
+//@ func GenerateUserToken
+//@   assigns #lastNow, #signerAlg, #signerKey, #signerObj, #encAlg, #encKeyAlg, #encKey, #encObj, #ndTime, #ndResult, #bSigner, #bEncrypter, #bPrev, #bLast, #serialized
+//@   ensures[C15,C18] keyLength: result1 == nil ==> len(UserEncryptionKey) >= 32
+//@   ensures[C15] encrypted: result1 == nil ==> result0 == #serialized && #bEncrypter == #encObj && #encObj != nil && #encAlg == "A128CBC-HS256" && #encKeyAlg == "dir" && #encKey == UserEncryptionKey
+//@   ensures[C15] signedIffKey: result1 == nil ==> (len(UserSigningKey) > 0) == (#bSigner != nil) && (#bSigner != nil ==> #bSigner == #signerObj && #signerAlg == "HS256" && #signerKey == UserSigningKey)
+//@   ensures[C15] claims: result1 == nil ==> stdClaims(#bLast).Issuer == "rdpgw" && stdClaims(#bLast).Subject == userName && stdClaims(#bLast).Expiry == #ndResult && #ndTime == #lastNow.Add(fiveMinutes())
+//@   nopanic[C10]
+
+//@ func UserInfo
+//@   assigns #lastNow, #encParsed, #encParsedFrom, #nestedParsed, #decryptOK, #decryptKey, #decryptOf, #macOK, #macTok, #macKey, #claimsStd, #claimsExtra, #validatedOK, #validatedIssuer, #validatedAt
+//@   ensures[C15] validated: result1 == nil ==> #validatedOK && #validatedIssuer == "rdpgw" && #validatedAt == #lastNow
+//@   ensures[C15] signedMode: result1 == nil && len(UserEncryptionKey) > 0 && len(UserSigningKey) > 0 ==> #encParsedFrom == token && #decryptOK && #decryptOf == #nestedParsed && #decryptKey == UserEncryptionKey && #macOK && #macTok == #encParsed && #macKey == UserSigningKey
+//@   ensures[C15] encryptOnlyMode: result1 == nil && len(UserSigningKey) == 0 ==> #encParsedFrom == token && #macOK && #macTok == #encParsed && #macKey == UserEncryptionKey
+//@   ensures[C15] noKeyNoToken: result1 == nil ==> len(UserSigningKey) == 0 || len(UserEncryptionKey) > 0
+//@   ensures[C15] claims: result1 == nil ==> result0 == *dyn(#claimsStd, ptr(jwt.Claims))
+//@   site (github.com/go-jose/go-jose/v4/jwt.Claims).Validate requires[C15] expected: arg1.Issuer == "rdpgw"
+//@   nopanic[C10]
+
+//@ func QueryInfo
+//@   assigns #lastNow, #parsedTok, #parsedFrom, #macOK, #macTok, #macKey, #claimsStd, #claimsExtra, #validatedOK, #validatedIssuer, #validatedAt
+//@   ensures[C12] verified: result1 == nil ==> #parsedFrom == tokenString && #macOK && #macTok == #parsedTok && #macKey == QuerySigningKey && #validatedOK && #validatedIssuer == issuer && #validatedAt == #lastNow
+//@   ensures[C12] subject: result1 == nil ==> result0 == dyn(#claimsStd, ptr(jwt.Claims)).Subject
+//@   ensures[C12] failed: result1 != nil ==> result0 == ""
+//@   site (github.com/go-jose/go-jose/v4/jwt.Claims).Validate requires[C12] verifiedClaims: arg0 == *dyn(#claimsStd, ptr(jwt.Claims)) && arg1.Issuer == issuer
+//@   nopanic[C10]
